@@ -156,7 +156,7 @@ pub trait CepstrumT: Buffer + Sized {
         let mut cepstrum = self.clone_with_size(m2 + 1);
         let mut f = vec![0.0; cepstrum.len()];
 
-        for i in 0..self.len() {
+        for i in (0..self.len()).rev() {
             f[0] = cepstrum[0];
             cepstrum[0] = self[i] + alpha * cepstrum[0];
             if 1 <= m2 {
